@@ -237,9 +237,9 @@ func genC11(c *Ctx) error {
 		// a robot batch carrying one swap answer and one multi-swap answer
 		if rk.n != 3 {
 			sid := make([]byte, 32)
-			sid[0], sid[1] = byte(ci), 1
+			sid[0], sid[1], sid[2] = byte(ci), 1, byte(ci>>8)
 			mid := make([]byte, 32)
-			mid[0], mid[1] = byte(ci), 2
+			mid[0], mid[1], mid[2] = byte(ci), 2, byte(ci>>8)
 			b := &fpb.Batch{
 				Swaps:      []*fpb.Swap{{Id: sid, Owner: stranger.Addr, Token: "VT", Amount: []byte{5}, From: "VT", To: "TT", Hash: make([]byte, 32)}},
 				MultiSwaps: []*fpb.MultiSwap{{Id: mid, Owner: stranger.Addr, Token: "VT", Assets: []*fpb.Asset{{Group: "VT_1", Amount: []byte{5}}}, From: "VT", To: "TT", Hash: make([]byte, 32)}},
